@@ -22,6 +22,9 @@ from . import c06, c18
 
 def gen_cfg(r, i):
     cfg, mode = c18.gen_cfg(r, i)
+    # EmceeSMC draws from NumPy's GLOBAL random state (emcee copies it when the kernel is built): there is no random source a
+    # checkpoint could carry or a caller could hand in again, so its runs are outside this property's quantifier (as in C20)
+    cfg.pop("sampler", None)
     cfg["n_samples"] = int(r.choice([8, 12]))
     cfg["kernel_steps"] = int(r.choice([2, 3]))
     if i % 3 == 1:
